@@ -6,6 +6,11 @@ ALL = ["C%02d" % i for i in range(1, 21)]
 
 # id -> (category, technique, level text, level note, design ref, engine)
 CHECKS = {
+    "C13": ("exploration",
+            "deviation-bounded exhaustive enumeration of documents (base x key path x shape, 0/1/2 deviations) x every split point, against outcome/idempotence/path-independence/loader oracles",
+            "Golden inputs of every schema version plus minimal and raw documents; every key path present plus every string literal of later steps placed under root and top-level objects, replaced by 9 shapes (1 deviation in quick, pairs in thorough); list-duplication variants; each migrated in one run and through every split point; no panic, error=>unchanged, stamped, idempotent, split-independent, unrelated key kept, loader accepts valid inputs.",
+            "yaml.v3 round trip is faithful; validity under a document's own schema assumed only for golden inputs and their list-duplication variants; bcrypt hashes (random salt) compared as equal.",
+            "DESIGN.md §4 C13", "E1-stateless"),
     "C18": ("exploration",
             "bounded exhaustive enumeration of (zone table x transition-day minute x range x weekday mask) against a wall-clock reference",
             "Every distinct zone transition table on the host, every minute (and +-1ns) of the local days before/of/after every DST transition in the window, 9 day ranges x 15 weekday masks, compared with a wall-clock reference; all serialised start/end combinations of a 10x10 grid in JSON and YAML for accept/reject, round trip and agreement. Exhaustive within those bounds.",
